@@ -32,10 +32,18 @@ type vpKConn struct {
 	rpos    int
 	closed  bool
 	werr    bool
+	readDeadline bool // a read deadline is in force (SetDeadline / SetReadDeadline)
 }
 
 func (c *vpKConn) Read(b []byte) (int, error) {
 	if c.rerr {
+		// a silent KDC: the read ends only if a read deadline is in force or the connection gets closed
+		for !c.readDeadline && !c.closed {
+			if !vpSymbolic() {
+				vpBlockForever()
+			}
+			vpWaitProgress()
+		}
 		return 0, errors.New("vp: i/o timeout")
 	}
 	if c.rpos >= len(c.reply) {
@@ -57,8 +65,8 @@ func (c *vpKConn) Write(b []byte) (int, error) {
 func (c *vpKConn) Close() error                       { c.closed = true; return nil }
 func (c *vpKConn) LocalAddr() net.Addr                { return nil }
 func (c *vpKConn) RemoteAddr() net.Addr               { return nil }
-func (c *vpKConn) SetDeadline(t time.Time) error      { return nil }
-func (c *vpKConn) SetReadDeadline(t time.Time) error  { return nil }
+func (c *vpKConn) SetDeadline(t time.Time) error      { c.readDeadline = true; return nil }
+func (c *vpKConn) SetReadDeadline(t time.Time) error  { c.readDeadline = true; return nil }
 func (c *vpKConn) SetWriteDeadline(t time.Time) error { return nil }
 
 var (
